@@ -205,3 +205,10 @@ def touch(doc):
         if hasattr(r, "get_startTime"):
             r.get_startTime()
             r.get_endTime()
+
+
+def input_class(doc):
+    """tag of an input class that a known finding is keyed by (appended to violation signatures, so that
+    the finding's entry matches this class only and any other violation keeps its own signature)"""
+    names = [str(b.identifier) for b in doc.bundles]
+    return "[bundles-printing-alike]" if len(set(names)) < len(names) else ""
